@@ -33,6 +33,7 @@ def _install(counter, kill_at, log, how='sigkill'):
 	wrap(h5py.Dataset, '__setitem__', 'dataset_write')
 	wrap(h5py.File, 'flush', 'flush')
 	wrap(h5py.File, 'close', 'close')
+	return died
 
 
 def _die(how):
@@ -61,7 +62,7 @@ def run_writer(write_fn, kill_at, how='sigkill'):
 			os.close(r)
 			counter = [0]
 			log = []
-			_install(counter, kill_at, log, how)
+			died = _install(counter, kill_at, log, how)
 			try:
 				write_fn()
 			except (KeyboardInterrupt, SystemExit) as e:
@@ -74,6 +75,12 @@ def run_writer(write_fn, kill_at, how='sigkill'):
 				os.write(w, struct.pack('<I', len(msg)) + msg)
 				os._exit(3)
 			except BaseException as e:  # noqa
+				if died and how != 'sigkill':
+					# the signal was delivered and the code under test turned it into another exception while unwinding
+					# (click turns KeyboardInterrupt into Abort): still an interrupted writer whose process now ends
+					msg = b'I' + repr(e).encode('utf-8', 'replace')[:200]
+					os.write(w, struct.pack('<I', len(msg)) + msg)
+					os._exit(4)
 				msg = ('E' + repr(e)).encode('utf-8', 'replace')[:4000]
 				os.write(w, struct.pack('<I', len(msg)) + msg)
 				os._exit(3)
